@@ -395,6 +395,7 @@ def solo(seed, calls):
     k = (seed, calls)
     v = _SOLO.get(k)
     if v is None:
+        stdlib_random.setstate(_STD0); CLOCK.reset(); cr.seed(99)      # same surroundings as at the start of a history
         r = CobaRandom(seed)
         v = _SOLO[k] = [CALLS[c](r) for c in calls]
     return v
